@@ -72,7 +72,9 @@ type ExprGen struct {
 func DefaultCols() map[Ty][]Ident {
 	return map[Ty][]Ident{
 		// `$left` and `$right` are ordinary column names when quoted
-		TInt:  {{Name: "ia"}, {Name: "ib"}, {Name: "i c", Quoted: true}, {Name: "$left", Quoted: true}, {Name: "$right", Quoted: true}},
+		TInt: {{Name: "ia"}, {Name: "ib"}, {Name: "i c", Quoted: true}, {Name: "$left", Quoted: true}, {Name: "$right", Quoted: true},
+			// case variants of the built-in constants are ordinary column names
+			{Name: "Null"}, {Name: "True"}},
 		TStr:  {{Name: "sa"}, {Name: "sb"}},
 		TBool: {{Name: "ba"}, {Name: "bb"}},
 		TArr:  {{Name: "ma"}},
